@@ -39,9 +39,9 @@ char CFG_ICACHE_FLASH_ATTR
 supla_esp_cfg_save(SuplaEspCfg *cfg) {
 
 	ets_intr_lock();
-	spi_flash_erase_sector(CFG_SECTOR);
 
-	if ( SPI_FLASH_RESULT_OK == spi_flash_write(CFG_SECTOR * SPI_FLASH_SEC_SIZE, (uint32*)cfg, sizeof(SuplaEspCfg)) ) {
+	if ( SPI_FLASH_RESULT_OK == spi_flash_erase_sector(CFG_SECTOR)
+	     && SPI_FLASH_RESULT_OK == spi_flash_write(CFG_SECTOR * SPI_FLASH_SEC_SIZE, (uint32*)cfg, sizeof(SuplaEspCfg)) ) {
 		//supla_log(LOG_DEBUG, "CFG WRITE SUCCESS");
 		ets_intr_unlock();
 		return 1;
@@ -62,9 +62,10 @@ void CFG_ICACHE_FLASH_ATTR _supla_esp_save_state(void *timer_arg) {
   supla_log(LOG_DEBUG, "STATE WRITE FAIL!");
 #else  /*BOARD_SAVE_STATE*/
   ets_intr_lock();
-  spi_flash_erase_sector(CFG_SECTOR + STATE_SECTOR_OFFSET);
 
   if (SPI_FLASH_RESULT_OK ==
+          spi_flash_erase_sector(CFG_SECTOR + STATE_SECTOR_OFFSET) &&
+      SPI_FLASH_RESULT_OK ==
       spi_flash_write((CFG_SECTOR + STATE_SECTOR_OFFSET) * SPI_FLASH_SEC_SIZE,
         (uint32 *)&supla_esp_state, sizeof(SuplaEspState))) {
     supla_log(LOG_DEBUG, "STATE WRITE SUCCESS");
